@@ -12,6 +12,10 @@ use std::convert::TryInto;
 fn parse_xref_section_from_stream(first_id: u32, mut num_entries: usize, width: &[usize], data: &mut &[u8], resolve: &impl Resolve) -> Result<XRefSection> {
     let mut entries = Vec::new();
     let [w0, w1, w2]: [usize; 3] = width.try_into().map_err(|_| other!("invalid xref length array"))?;
+    if w0.checked_add(w1).and_then(|w| w.checked_add(w2)).map_or(true, |w| w == 0) {
+        // entries without any bytes: the entry count from /Size or /Index would not be checked against the data
+        bail!("invalid xref stream entry widths {:?}", width);
+    }
     if num_entries * (w0 + w1 + w2) > data.len() {
         if resolve.options().allow_xref_error {
             warn!("not enough xref data. truncating.");
